@@ -514,6 +514,127 @@ def runScript (kind : String) (ops : List String) : String :=
 
 end ISX
 
+
+/-! ### in-process unary scripts: subset-construction explorer over `InprocUnary.step`.
+    Script ops: c.invoke, h.decode, h.decodestall, env.finishcopy, h.setheader:i, h.sendheader:i,
+    h.settrailer:i, h.return:<v|nil>:<herr>, env.cancel, env.expire, env.hold:<kind>,
+    env.release:<kind>  (kind ∈ headers|data|trailers|err|close: the verifhook schedule points of the
+    server goroutine). Holds are checker state: they disable the corresponding internal action. -/
+namespace IUX
+open InprocUnary
+open InprocStream (Reason HErr Res)
+
+def showMD (o : Option (List Nat)) : String := match o with
+  | none => "-"
+  | some l => "+".intercalate (l.map toString)
+
+def showRet (s : St) (r : Res) : String :=
+  "c:" ++ ISX.showRes r ++ "|resp=" ++ (match s.respCopied with | some v => toString v | none => "-") ++
+  "|hdr=" ++ showMD s.cHdr ++ "|tlr=" ++ showMD s.cTlr
+
+def showEv (s : St) : Ev → String
+  | .ret .c r => showRet s r
+  | .ret .h r => "h:" ++ ISX.showRes r
+
+def kindOf : UFrame → String
+  | .headers _ => "headers" | .data _ => "data" | .trailers _ => "trailers" | .err _ => "err"
+
+/-- is the internal action disabled by a held schedule point? -/
+def heldAct (holds : List String) (s : St) (a : Act) : Bool :=
+  match a with
+  | .wEnq | .wSkip => (match s.frames with | f :: _ => holds.contains (kindOf f) | [] => false)
+  | .wClose => holds.contains "close"
+  | _ => false
+
+partial def closure (holds : List String) (started : Bool) (fuel : Nat) (frontier : List (St × List String)) (done : List (St × List String)) :
+    List (St × List String) :=
+  match fuel, frontier with
+  | 0, _ => done ++ frontier
+  | _, [] => done
+  | fuel + 1, (s, evs) :: rest =>
+    let acts := if started then internalActs else []
+    let succs := acts.filterMap fun a =>
+      if heldAct holds s a then none else (step s a).map fun (s', es) => (s', evs ++ es.map (showEv s'))
+    if succs.isEmpty then
+      let item := (s, ISX.sortStrs evs)
+      closure holds started fuel rest (if done.contains item then done else item :: done)
+    else
+      let newOnes := succs.filter fun x => !(rest.contains x)
+      closure holds started fuel (newOnes ++ rest) done
+
+def retOf (arg : String) : Option (Option Nat × Option HErr) :=
+  match arg.splitOn ":" with
+  | v :: more =>
+    let vv : Option (Option Nat) := if v == "nil" then some none else v.toNat?.map some
+    match vv, ISX.herrOf (":".intercalate more) with
+    | some vv, some e => some (vv, e)
+    | _, _ => none
+  | [] => none
+
+/-- explorer state: model states × holds × whether Invoke has been called -/
+def runScript (old : Bool) (ops : List String) : String :=
+  let s0 := if old then initOld Gen.unaryCap else init Gen.unaryCap
+  let rec go (k : Nat) (states : List St) (holds : List String) (started : Bool) : List String → String
+    | [] => "accept"
+    | opStr :: rest =>
+      match opStr.splitOn "=>" with
+      | [lhs, obs] =>
+        let observed := ISX.sortStrs (if obs.isEmpty then [] else obs.splitOn ",")
+        let (actorOp, arg) := match lhs.splitOn ":" with
+          | [ao] => (ao, "")
+          | ao :: more => (ao, ":".intercalate more)
+          | [] => ("", "")
+        -- ops that only change checker state
+        let (holds', started', acts) : List String × Bool × Option (List Act) :=
+          match actorOp with
+          | "env.hold" => (if holds.contains arg then holds else arg :: holds, started, some [])
+          | "env.release" => (holds.filter (· != arg), started, some [])
+          | "c.invoke" => (holds, true, some [])
+          | "h.decode" => (holds, started, some [.hDecodeBegin, .hDecodeEnd])
+          | "h.decodestall" => (holds, started, some [.hDecodeBegin])
+          | "env.finishcopy" => (holds, started, some [.hDecodeEnd])
+          | "h.setheader" => (holds, started, arg.toNat?.map fun i => [.hSetHeader i])
+          | "h.sendheader" => (holds, started, arg.toNat?.map fun i => [.hSendHeader i])
+          | "h.settrailer" => (holds, started, arg.toNat?.map fun i => [.hSetTrailer i])
+          | "h.return" => (holds, started, (retOf arg).map fun (v, e) => [.hReturn v e])
+          | "env.cancel" => (holds, started, some [.cancel .canceled])
+          | "env.expire" => (holds, started, some [.cancel .deadline])
+          | _ => (holds, started, none)
+        match acts with
+        | none => s!"bad-op@{k}"
+        | some acts =>
+          -- apply the op's actions in sequence (a refused decode ends after its first action)
+          let startedSt := states.filterMap fun s =>
+            acts.foldl (fun (acc : Option (St × List String × Bool)) a =>
+              match acc with
+              | none => none
+              | some (s, evs, stop) =>
+                if stop then some (s, evs, stop) else
+                match step s a with
+                | none => none
+                | some (s', es) =>
+                  let refused := a == .hDecodeBegin && !es.isEmpty
+                  some (s', evs ++ es.map (showEv s'), refused)) (some (s, [], false))
+            |>.map fun (s, evs, _) => (s, evs)
+          let outs := closure holds' started' 4000 startedSt []
+          let matching := (outs.filter fun (_, evs) => evs == observed).map (·.1)
+          let dedup := matching.foldl (fun acc s => if acc.contains s then acc else s :: acc) []
+          if dedup.isEmpty then
+            let allowed := (outs.map (·.2)).foldl (fun acc e => if acc.contains e then acc else e :: acc) []
+            s!"reject@{k} op={lhs} observed=[{",".intercalate observed}] model-allows={allowed.map fun e => "[" ++ ",".intercalate e ++ "]"}"
+          else go (k + 1) dedup holds' started' rest
+      | _ => s!"bad-op@{k}"
+  go 0 [s0] [] false ops
+
+end IUX
+
+def driveIU (args : List String) : String :=
+  match args with
+  | [mode, ops] =>
+    let o := argVal ops "ops"
+    IUX.runScript (argVal mode "model" == "old") (if o.isEmpty then [] else o.splitOn ";")
+  | _ => "bad-op"
+
 def driveIS (args : List String) : String :=
   match args with
   | [kind, ops] =>
@@ -536,6 +657,7 @@ def dispatch (line : String) : String :=
   | "C10" :: rest => driveC10 rest
   | "C18" :: rest => driveC18 rest
   | "IS" :: rest => driveIS rest
+  | "IU" :: rest => driveIU rest
   | _ => "bad-op"
 
 partial def loop (h : IO.FS.Stream) (out : IO.FS.Stream) : IO Unit := do
